@@ -105,14 +105,15 @@ def showDef : Def → String
   | .modVal i => s!"M{i}"
   | .builtin => "B"
 
-def parseDecls (s : String) : Option (List (Name × Nat)) :=
+def parseDecls (s : String) : Option (List (Name × ValEntry)) :=
   if s = "-" then some [] else
   (s.splitOn ",").mapM (fun p => match p.splitOn ":" with
-    | [n, i] => i.toNat?.map (fun i => (n, i))
+    | [n, "T"] => some (n, none)
+    | [n, i] => i.toNat?.map (fun i => (n, some i))
     | _ => none)
 
 /-- `scope <decls> <sexpr>` → per occurrence `occ=<def>[name=def,…]` -/
-def scopeCmd (decls : List (Name × Nat)) (f : Function) : String :=
+def scopeCmd (decls : List (Name × ValEntry)) (f : Function) : String :=
   let S := buildScopes f
   let values := buildValues decls
   let outs := (occNames f.body).map (fun on =>
